@@ -58,10 +58,11 @@ func genC12(t *rapid.T) C12Case {
 				f.Mode = rapid.SampledFrom([]string{simhap.FaultRefuse, simhap.FaultDrop, simhap.FaultDropApp, simhap.FaultNotOK}).Draw(t, "cmdmode")
 			case "reload":
 				f.Pick = 1
-				// the new worker fails to start (show proc reports failed: 1). A master that silently
-				// ignores `reload` is not generated: closing the connection without a response is
-				// also what a successful reload looks like to the client
-				f.Mode = simhap.FaultFail
+				// the new worker fails to start (show proc reports failed: 1), or the request itself fails: the
+				// master socket resets the connection before reading it. A master that silently ignores `reload`
+				// is not generated: closing the connection without a response is also what a successful reload
+				// looks like to the client
+				f.Mode = rapid.SampledFrom([]string{simhap.FaultFail, simhap.FaultFail, simhap.FaultReset}).Draw(t, "reloadmode")
 			}
 			f.Repeat = rapid.SampledFrom([]int{0, 0, 0, 1, 2}).Draw(t, "repeat")
 		}
@@ -381,7 +382,7 @@ func execC12Enum(c C12EnumCase) *Failure {
 		points = append(points, point{kind: "cmd", ord: i, mode: []string{simhap.FaultRefuse, simhap.FaultDrop, simhap.FaultDropApp, simhap.FaultNotOK}[i%4]})
 	}
 	if reloads > 0 {
-		points = append(points, point{kind: "reload", ord: 1, mode: simhap.FaultFail})
+		points = append(points, point{kind: "reload", ord: 1, mode: simhap.FaultFail}, point{kind: "reload", ord: 1, mode: simhap.FaultReset})
 	}
 	failedUpdates := 0
 	for pi, pt := range points {
